@@ -1,2 +1,166 @@
 (* Props_C01_lazy — property theorems of the proof agent owning this topic: only Theorem ... exact ... Qed. Print Assumptions. *)
 From FoxBase Require Import Bytes.
+From FoxRoute Require Import Node Lookup LazyProofs LazyProofs2.
+Open Scope char_scope.
+
+(* ---- lookupByPath: forward simulation from arbitrary related states (no invariant) ---- *)
+Theorem C01_lbp_lazy_irrelevant : forall f path ph sl sn, lazy_rel sl sn ->
+  match lbp f path false ph sn with
+  | Found n t _ _ => exists p tp, lbp f path true ph sl = Found n t p tp
+  | LOutOfFuel => lbp f path true ph sl = LOutOfFuel
+  | LPanic => True
+  end.
+Proof. exact lbp_lazy_irrelevant. Qed.
+Print Assumptions C01_lbp_lazy_irrelevant.
+
+(* ---- ... and exact correspondence under the params/skipped-stack invariant ---- *)
+Theorem C01_lbp_lazy_irrelevant_iff : forall f path ph sl sn, lazy_rel sl sn -> Inv ph sn ->
+  (forall n t, (exists p tp, lbp f path true ph sl = Found n t p tp) <->
+               (exists p tp, lbp f path false ph sn = Found n t p tp)) /\
+  (lbp f path true ph sl = LPanic <-> lbp f path false ph sn = LPanic) /\
+  (lbp f path true ph sl = LOutOfFuel <-> lbp f path false ph sn = LOutOfFuel).
+Proof. exact lbp_lazy_irrelevant_iff. Qed.
+Print Assumptions C01_lbp_lazy_irrelevant_iff.
+
+(* a panic of the recording run from a state satisfying the invariant is never the `[:k] beyond
+   len` artifact of PBack: the lazy run (whose guard is `len < 0`) panics as well *)
+Theorem C01_lbp_panic_genuine : forall f path ph sn, Inv ph sn ->
+  lbp f path false ph sn = LPanic -> forall p tp, lbp f path true ph (lz sn p tp) = LPanic.
+Proof. exact lbp_panic_genuine. Qed.
+Print Assumptions C01_lbp_panic_genuine.
+
+Theorem C01_lookup_by_path_lazy_irrelevant : forall f c path ps0 tps0 ps1 tps1,
+  strong_rel (lookup_by_path f c path true ps0 tps0) (lookup_by_path f c path false ps1 tps1).
+Proof. exact lookup_by_path_lazy_irrelevant. Qed.
+Print Assumptions C01_lookup_by_path_lazy_irrelevant.
+
+Example C01_lbp_lazy_irrelevant_ex :
+  let s := init_st ex_path_node [] [] in
+  lazy_rel s s /\ Inv PWalk s /\
+  exists n kv1 kv2,
+    lbp ex_fuel (S2B "/a/foo/c") false PWalk s = Found (Some n) false [kv1; kv2] [(S2B "x", S2B "foo")] /\
+    lbp ex_fuel (S2B "/a/foo/c") true PWalk s = Found (Some n) false [] [].
+Proof. exact lbp_lazy_irrelevant_ex. Qed.
+
+(* ---- lookupByDomain ---- *)
+Theorem C01_lbd_lazy_irrelevant : forall f host path ph sl sn, lazy_rel sl sn ->
+  match lbd f host path false ph sn with
+  | Found n t _ _ => exists p tp, lbd f host path true ph sl = Found n t p tp
+  | LOutOfFuel => lbd f host path true ph sl = LOutOfFuel
+  | LPanic => True
+  end.
+Proof. exact lbd_lazy_irrelevant. Qed.
+Print Assumptions C01_lbd_lazy_irrelevant.
+
+Theorem C01_lbd_lazy_irrelevant_iff : forall f host path ph sl sn, lazy_rel sl sn -> DInv ph sn ->
+  (forall n t, (exists p tp, lbd f host path true ph sl = Found n t p tp) <->
+               (exists p tp, lbd f host path false ph sn = Found n t p tp)) /\
+  (lbd f host path true ph sl = LPanic <-> lbd f host path false ph sn = LPanic) /\
+  (lbd f host path true ph sl = LOutOfFuel <-> lbd f host path false ph sn = LOutOfFuel).
+Proof. exact lbd_lazy_irrelevant_iff. Qed.
+Print Assumptions C01_lbd_lazy_irrelevant_iff.
+
+Theorem C01_lookup_by_domain_lazy_irrelevant : forall f target host path ps0 tps0 ps1 tps1,
+  strong_rel (lookup_by_domain f target host path true ps0 tps0)
+             (lookup_by_domain f target host path false ps1 tps1).
+Proof. exact lookup_by_domain_lazy_irrelevant. Qed.
+Print Assumptions C01_lookup_by_domain_lazy_irrelevant.
+
+Example C01_lbd_lazy_irrelevant_ex :
+  exists n,
+    lookup_by_domain ex_fuel ex_host_node (S2B "a.ex.com") (S2B "/u/42/x") false [] [] =
+      Found (Some n) false [(S2B "sub", S2B "a"); (S2B "id", S2B "42")] [] /\
+    lookup_by_domain ex_fuel ex_host_node (S2B "a.ex.com") (S2B "/u/42/x") true [] [] = Found (Some n) false [] [].
+Proof. exact lbd_lazy_irrelevant_ex. Qed.
+
+(* ---- roots.lookup: unconditional, any initial params / tsrParams on either side ---- *)
+Theorem C01_roots_lookup_lazy_irrelevant_gen : forall f r m h p ps0 tps0 ps1 tps1,
+  proj (roots_lookup f r m h p true ps0 tps0) = proj (roots_lookup f r m h p false ps1 tps1).
+Proof. exact roots_lookup_lazy_irrelevant_gen. Qed.
+Print Assumptions C01_roots_lookup_lazy_irrelevant_gen.
+
+Theorem C01_roots_lookup_lazy_irrelevant : forall fuel r m h p,
+  proj (roots_lookup fuel r m h p true [] []) = proj (roots_lookup fuel r m h p false [] []).
+Proof. exact roots_lookup_lazy_irrelevant. Qed.
+Print Assumptions C01_roots_lookup_lazy_irrelevant.
+
+Example C01_roots_lookup_lazy_irrelevant_ex :
+  exists n,
+    roots_lookup ex_fuel ex_host_roots m_get (S2B "a.ex.com") (S2B "/u/42/x") false [] [] =
+      Found (Some n) false [(S2B "sub", S2B "a"); (S2B "id", S2B "42")] [] /\
+    roots_lookup ex_fuel ex_host_roots m_get (S2B "a.ex.com") (S2B "/u/42/x") true [] [] = Found (Some n) false [] [] /\
+    exists n',
+    roots_lookup ex_fuel ex_host_roots m_get (S2B "a.ex.com") (S2B "/a/42/b") false [] [] =
+      Found (Some n') false [(S2B "x", S2B "42")] [] /\
+    roots_lookup ex_fuel ex_host_roots m_get (S2B "a.ex.com") (S2B "/a/42/b") true [] [] = Found (Some n') false [] [].
+Proof. exact roots_lookup_lazy_irrelevant_ex. Qed.
+
+(* ---- fuel monotonicity ---- *)
+Theorem C01_lbp_fuel_mono : forall f k path lazy ph s,
+  lbp f path lazy ph s <> LOutOfFuel -> lbp (f + k) path lazy ph s = lbp f path lazy ph s.
+Proof. exact lbp_fuel_mono. Qed.
+Print Assumptions C01_lbp_fuel_mono.
+
+Theorem C01_lbd_fuel_mono : forall f k host path lazy ph s,
+  lbd f host path lazy ph s <> LOutOfFuel -> lbd (f + k) host path lazy ph s = lbd f host path lazy ph s.
+Proof. exact lbd_fuel_mono. Qed.
+Print Assumptions C01_lbd_fuel_mono.
+
+Theorem C01_roots_lookup_fuel_mono : forall f k r m h p lazy ps0 tps0,
+  roots_lookup f r m h p lazy ps0 tps0 <> LOutOfFuel ->
+  roots_lookup (f + k) r m h p lazy ps0 tps0 = roots_lookup f r m h p lazy ps0 tps0.
+Proof. exact roots_lookup_fuel_mono. Qed.
+Print Assumptions C01_roots_lookup_fuel_mono.
+
+Example C01_fuel_mono_ex :
+  roots_lookup 60 ex_host_roots m_get (S2B "a.ex.com") (S2B "/u/42/x") false [] [] <> LOutOfFuel /\
+  roots_lookup 30 ex_host_roots m_get (S2B "a.ex.com") (S2B "/u/42/x") false [] [] = LOutOfFuel /\
+  lbp 60 (S2B "/a/foo/c") false PWalk (init_st ex_path_node [] []) <> LOutOfFuel /\
+  lbd 60 (S2B "a.ex.com") (S2B "/u/42/x") false DWalk (init_st ex_host_node [] []) <> LOutOfFuel.
+Proof. exact fuel_mono_ex. Qed.
+
+(* ---- the entry points select what Lookup selects (same roots value = router or transaction) ---- *)
+Theorem entry_points_agree :
+  forall fuel (strip_host_port : bytes -> bytes) (split_host_path : bytes -> bytes * bytes) (ts_opt : route -> bool)
+         r method host path pattern tp0 tp1,
+    Router_Reverse fuel strip_host_port r method host path tp0 =
+      Router_Lookup fuel strip_host_port r method host (or_slash path) tp1 /\
+    Txn_Reverse fuel strip_host_port r method host path tp0 = Txn_Lookup fuel strip_host_port r method host path tp1 /\
+    ServeHTTP_direct fuel strip_host_port r method host path tp0 =
+      direct_only (Router_Lookup fuel strip_host_port r method host path tp1) /\
+    Iter_Reverse1 fuel strip_host_port ts_opt r method host path tp0 =
+      tsr_opt_only ts_opt (Router_Lookup fuel strip_host_port r method host (or_slash path) tp1) /\
+    Router_Route fuel strip_host_port split_host_path r method pattern tp0 =
+      pattern_only pattern (Router_Lookup fuel strip_host_port r method
+                              (fst (split_host_path pattern)) (snd (split_host_path pattern)) tp1) /\
+    Txn_Route fuel strip_host_port split_host_path r method pattern tp0 =
+      pattern_only pattern (Txn_Lookup fuel strip_host_port r method
+                              (fst (split_host_path pattern)) (snd (split_host_path pattern)) tp1) /\
+    Txn_Lookup fuel strip_host_port r method host path tp0 = Router_Lookup fuel strip_host_port r method host path tp1.
+Proof. exact entry_points_agree_lemma. Qed.
+Print Assumptions entry_points_agree.
+
+Example C01_entry_points_agree_ex :
+  exists n,
+    Router_Lookup ex_fuel ex_strip ex_host_roots m_get (S2B "a.ex.com") (S2B "/u/42/x") [] = EP (Some (n, false)) /\
+    Router_Reverse ex_fuel ex_strip ex_host_roots m_get (S2B "a.ex.com") (S2B "/u/42/x") [] = EP (Some (n, false)) /\
+    ServeHTTP_direct ex_fuel ex_strip ex_host_roots m_get (S2B "a.ex.com") (S2B "/u/42/x") [] = EP (Some (n, false)) /\
+    Iter_Reverse1 ex_fuel ex_strip (fun _ => false) ex_host_roots m_get (S2B "a.ex.com") (S2B "/u/42/x") [] = EP (Some (n, false)) /\
+    nroute n = Some {| rpat := S2B "{sub}.ex.com/u/{id}/x"; rid := 6 |} /\
+    exists n',
+    Router_Route ex_fuel ex_strip ex_split ex_host_roots m_get (S2B "{sub}.ex.com/u/{id}/x") [] = EP (Some (n', false)) /\
+    nroute n' = nroute n.
+Proof. exact entry_points_agree_ex. Qed.
+
+(* ---- Router.Reverse vs Txn.Reverse: same for a non-empty path, different on "" (witness) ---- *)
+Theorem C01_Router_Txn_Reverse_nonempty : forall fuel shp r m h p tp0, p <> [] ->
+  Router_Reverse fuel shp r m h p tp0 = Txn_Reverse fuel shp r m h p tp0.
+Proof. exact Router_Txn_Reverse_nonempty. Qed.
+Print Assumptions C01_Router_Txn_Reverse_nonempty.
+
+Theorem C01_Txn_Reverse_empty_path_refuted :
+  exists r m h n,
+    Router_Reverse ex_fuel ex_strip r m h [] [] = EP (Some (n, false)) /\
+    Txn_Reverse ex_fuel ex_strip r m h [] [] = EP (Some (n, true)).
+Proof. exact Txn_Reverse_empty_path_differs. Qed.
+Print Assumptions C01_Txn_Reverse_empty_path_refuted.
